@@ -17,10 +17,11 @@ import (
 
 // DBH wraps a nutsdb handle with panic-safe execution.
 type DBH struct {
-	DB   *nutsdb.DB
-	Dir  string
-	Cfg  Config
-	Dead bool // a panic happened while the lock may be held; never touch again
+	Concurrent bool // several goroutines use this handle (the lock probe of RunTx is disabled)
+	DB         *nutsdb.DB
+	Dir        string
+	Cfg        Config
+	Dead       bool // a panic happened while the lock may be held; never touch again
 
 	lastTxMs int64 // wall-clock millisecond of the last transaction begun on this directory
 }
@@ -159,6 +160,11 @@ func (h *DBH) RunTx(st Step, writable bool, pre func(i int, op *Op)) (tr TxResul
 			tr.CommitErr = err
 		}
 		tr.Committed = err == nil
+		if err != nil && !h.lockReleased() {
+			// db.Update/db.View returned an error but kept the database lock: every later transaction would block forever
+			tr.Panic = "DEADLOCK: the database lock is still held after db.Update/db.View returned the error: " + err.Error()
+			h.Dead = true
+		}
 		return
 	}
 	// manual style
@@ -200,6 +206,29 @@ func (h *DBH) RunTx(st Step, writable bool, pre func(i int, op *Op)) (tr TxResul
 		}
 	}
 	return
+}
+
+// lockReleased probes the database lock after a managed transaction that failed: a write
+// transaction must be able to begin (nothing else is running in the sequential checks; the
+// concurrent engine has its own watchdog). The 30 s limit is only a backstop for reporting;
+// an idle lock is acquired in microseconds.
+func (h *DBH) lockReleased() bool {
+	if h.Concurrent {
+		return true
+	}
+	done := make(chan struct{})
+	go func() {
+		defer func() { _ = recover(); close(done) }()
+		if tx, err := h.DB.Begin(true); err == nil {
+			_ = tx.Rollback()
+		}
+	}()
+	select {
+	case <-done:
+		return true
+	case <-time.After(30 * time.Second):
+		return false
+	}
 }
 
 func bs(s S) []byte { return []byte(s) }
